@@ -301,6 +301,16 @@ fn prefix(base: &[u8], o: &PrefixInformationOptionSlice) -> String {
         && pi.valid_lifetime == o.valid_lifetime()
         && pi.preferred_lifetime == o.preferred_lifetime()
         && pi.prefix == o.prefix()
+        // the struct's own decoder and encoder: same value from the same 32 bytes, and the bytes back
+        // (the reserved bits of octet 3 and octets 12..16 are written as zero)
+        && etherparse::icmpv6::PrefixInformation::from_slice(o.as_bytes()).ok() == Some(pi)
+        && etherparse::icmpv6::PrefixInformation::from_slice(&o.as_bytes()[..31]).is_err()
+        && {
+            let w = pi.to_bytes();
+            let b = o.as_bytes();
+            w[..3] == b[..3] && w[3] == b[3] & 0xc0 && w[4..12] == b[4..12] && w[12..16] == [0, 0, 0, 0] && w[16..] == b[16..]
+                && etherparse::icmpv6::PrefixInformation::from_slice(&w).ok() == Some(pi)
+        }
     {
         ""
     } else {
@@ -369,6 +379,7 @@ fn ndp_step(base: &[u8], it: &mut NdpOptionsIterator) -> String {
 
 /// iterate an option area (`area` lies inside `base`): at most len/8+3 steps, then two more calls.
 fn ndp_iterate(base: &[u8], mut it: NdpOptionsIterator) -> String {
+    let _ = format!("{:?}", it);
     let max = it.rest().len() / 8 + 3;
     let mut items: Vec<String> = Vec::new();
     let mut steps = 0usize;
@@ -411,11 +422,12 @@ fn ndp_opt_single(kind: &str, s: &[u8]) -> Option<String> {
         "header" => match NdpOptionHeader::from_slice(s) {
             Err(e) => format!("err({})", ndp_err(&e)),
             Ok((h, rest)) => format!(
-                "ok(type={},units={},blen={},rest={})",
+                "ok(type={},units={},blen={},rest={}){}",
                 h.option_type.0,
                 h.length_units,
                 h.byte_len(),
-                win(s, rest)
+                win(s, rest),
+                if h.to_bytes()[..] != s[..2] { "!accessor-mismatch" } else { "" }
             ),
         },
         _ => return None,
